@@ -120,5 +120,19 @@ pub fn run() -> i32 {
             }
         }
     }
+    // forced full-zip on Boolean columns
+    for (name, arr) in [("bool all_true x1", BooleanArray::from(vec![true])), ("bool mixed x64", BooleanArray::from((0..64).map(|i| i % 3 == 0).collect::<Vec<_>>())), ("bool nullable x5", BooleanArray::from(vec![Some(true), None, Some(false), Some(true), None]))] {
+        for version in [lance_encoding::version::LanceFileVersion::V2_1, lance_encoding::version::LanceFileVersion::V2_2] {
+            let md: std::collections::HashMap<String, String> = [("lance-encoding:structural-encoding".to_string(), "fullzip".to_string())].into_iter().collect();
+            let schema = Arc::new(arrow_schema::Schema::new(vec![arrow_schema::Field::new("col", arrow_schema::DataType::Boolean, true).with_metadata(md)]));
+            let batches = vec![RecordBatch::try_new(schema.clone(), vec![Arc::new(arr.clone())]).unwrap()];
+            let out = crate::quiet::run_attributed(|| rt.block_on(async {
+                let f = crate::fileio::write_file(&batches, schema.clone(), version, None, "probe6").await?;
+                let r = crate::fileio::open(&f).await?;
+                crate::fileio::read_all(&r, 4096).await
+            }));
+            println!("fullzip-bool {version} {name}: {}", match out { Ok(b) => format!("ok {} rows", b.iter().map(|x| x.num_rows()).sum::<usize>()), Err(e) => format!("FAILED {e}") });
+        }
+    }
     0
 }
